@@ -51,6 +51,9 @@ type Case struct {
 	// directly connected agent NewRoot, and another task is issued for the last agent
 	Relink  int    `json:"relink,omitempty"`
 	NewRoot uint32 `json:"new_root,omitempty"`
+	// after the reconnect the OLD parent still hands in a frame it had read from the moved agent's
+	// pipe before (it sleeps longer than the new parent): none | getjob | callback
+	StaleFrame string `json:"stale_frame,omitempty"`
 }
 
 func keyFrom(seed byte) ([]byte, []byte) {
@@ -94,6 +97,7 @@ func gen(t *rapid.T) Case {
 	c.UpMarker = "UPMARK" + rapid.StringMatching(`[a-z]{6}`).Draw(t, "upm")
 	if rapid.IntRange(0, 2).Draw(t, "relink?") > 0 {
 		c.Relink = rapid.IntRange(1, depth).Draw(t, "relink")
+		c.StaleFrame = rapid.SampledFrom([]string{"", "", "getjob", "callback"}).Draw(t, "stale")
 		for {
 			c.NewRoot = idg.Draw(t, "newroot")
 			if !seen[c.NewRoot] && c.NewRoot != c.SideID {
@@ -404,6 +408,21 @@ func relink(c Case, w *agx.World, chain []sess, tag string) *core.Violation {
 	if a == nil || a.Pivots.Parent == nil || a.Pivots.Parent.NameID != r2.NameID() {
 		return core.V("relink|wrong-parent|"+tag, "after reconnecting under %s the parent of %08x is %v", r2.NameID(), moved.ID, a.Pivots.Parent)
 	}
+	if c.StaleFrame != "" {
+		// relayed through the old chain: root .. old parent of the moved agent
+		var subs []demonref.Sub
+		if c.StaleFrame == "callback" {
+			subs = []demonref.Sub{{Cmd: agent.COMMAND_OUTPUT, ReqID: c.TaskID ^ 0x0f0f0f0f, Body: (&demonref.Enc{}).String("late frame").B}}
+		}
+		stale := demonref.Batch(moved.ID, 0, subs, moved.Key, moved.IV)
+		if code, _ := w.Post(wrapUp(chain, c.Relink, stale)); code != 200 {
+			return core.V("relink|stale-frame-status|"+tag, "a frame of %08x handed in late by its old parent was answered %d", moved.ID, code)
+		}
+		a = w.Agent(moved.ID)
+		if a == nil || a.Pivots.Parent == nil || a.Pivots.Parent.NameID != r2.NameID() {
+			return core.V("relink|stale-frame-moved-the-agent-back|"+tag, "%08x reconnected under %s; a frame its old parent %08x handed in afterwards changed its parent to %v", moved.ID, r2.NameID(), chain[c.Relink-1].ID, a.Pivots.Parent)
+		}
+	}
 	nchain := append([]sess{r2}, chain[c.Relink:]...)
 	// whatever the connects left queued is not looked at
 	w.Checkin(chain[0], nil)
@@ -473,6 +492,9 @@ func classify(c Case) core.Class {
 			pos = "ancestor-of-target"
 		}
 		cl.Labels = append(cl.Labels, "relink:"+pos)
+		if c.StaleFrame != "" {
+			cl.Labels = append(cl.Labels, "stale-frame-from-old-parent:"+c.StaleFrame)
+		}
 		cl.Fingerprint += "|relink=" + pos
 	}
 	if big {
@@ -484,7 +506,7 @@ func classify(c Case) core.Class {
 func TestC08(t *testing.T) {
 	core.Run(t, core.Spec[Case]{
 		Property: "C08", Sub: "a",
-		Rule: "pivot chains of depth 1-5 (optional sibling of the target) built through real, relayed SMB_CONNECT callbacks; ids from {1,2,2^31-1,2^31,2^32-1,random}, distinct keys; two operator tasks (sleep, fs/cd) for the last agent are unwrapped from the first hop's check-in reply layer by layer with each hop's own key and SmbRecv's frame rules; then a callback of the last agent is wrapped once per ancestor in scenarios ok / id never issued / id outstanding only for the parent / encrypted under the parent's key / sent by the sibling with the target's id / one frame mixing callbacks with never-issued ids and the outstanding one in either order; then (2 of 3 cases) one agent of the chain - the target or one of its ancestors - reconnects under a new directly connected agent and a third task for the last agent must be found, correctly wrapped for the new chain, at the new first hop and not at the old one. Non-trivial: depth >= 2 or an id >= 2^31; distinct = (depth, big id, sibling, scenario)",
+		Rule: "pivot chains of depth 1-5 (optional sibling of the target) built through real, relayed SMB_CONNECT callbacks; ids from {1,2,2^31-1,2^31,2^32-1,random}, distinct keys; two operator tasks (sleep, fs/cd) for the last agent are unwrapped from the first hop's check-in reply layer by layer with each hop's own key and SmbRecv's frame rules; then a callback of the last agent is wrapped once per ancestor in scenarios ok / id never issued / id outstanding only for the parent / encrypted under the parent's key / sent by the sibling with the target's id / one frame mixing callbacks with never-issued ids and the outstanding one in either order; then (2 of 3 cases) one agent of the chain - the target or one of its ancestors - reconnects under a new directly connected agent (in half of these the old parent afterwards still hands in a frame it had read from the moved agent: the link must stay as the reconnect set it) and a third task for the last agent must be found, correctly wrapped for the new chain, at the new first hop and not at the old one. Non-trivial: depth >= 2 or an id >= 2^31; distinct = (depth, big id, sibling, scenario)",
 		Gen:   gen, Check: check, Classify: classify,
 		Assumptions: []string{"the Demon's pipe framing and PivotPush wrapping are transcribed from TransportSmb.c / Pivot.c / Command.c"},
 	})
